@@ -245,10 +245,10 @@ PROPS["C18"] = {
 
 PROPS["C04"] = {
     "level": "other",
-    "technique": "Verus contract on the extracted QueryEngine::extract_time_from_expr over a DataFusion Expr shim (every timestamp the WHERE clause may accept lies inside the extracted bounds: comparisons in either operand order, =, BETWEEN / NOT BETWEEN, AND, OR at every depth) and on the default handling of extract_time_range; composed with the exact chunk lookup (C07) and sound statistics pruning (C12)",
+    "technique": "Verus contract on the extracted QueryEngine::extract_time_from_expr over a DataFusion Expr shim (every timestamp the WHERE clause may accept lies inside the extracted bounds: comparisons in either operand order, =, BETWEEN / NOT BETWEEN, AND, OR at every depth) and on the default handling of extract_time_range (time_range_defaults, has_time_predicate, node_has_time_predicate, mentions_time_column: only a statement without any time predicate is narrowed to the last hour); composed with the exact chunk lookup (C07) and sound statistics pruning (C12)",
     "verus": ["c04_timebounds.rs.in", "c07_local.rs.in", "c07_s3.rs.in", "c12_pruning.rs.in", "c04_registration.rs.in"],
     "kani": ["c12_leaves"],
-    "explanation": "C04 is decided only for the three pruning stages cardinalsin itself implements: (1) the extracted time range over-approximates the accepted timestamps (proved, with known finding F10b for window sides that are not literals), (2) the chunk lookup returns exactly the chunks meeting the range (C07 units), (3) statistics pruning never drops a chunk that can contain a matching row (C12 units). That DataFusion evaluates the SQL correctly on the registered files, per-query table registration and adaptive-index independence are assumed, not verified; convert_expr_to_predicate is not under contract yet.",
+    "explanation": "C04 is decided only for the three pruning stages cardinalsin itself implements: (1) the extracted time range over-approximates the accepted timestamps (proved; a window side the extractor cannot read stays unbounded whenever the statement has a time predicate at all -- units has_time_predicate / node_has_time_predicate / mentions_time_column / time_range_defaults, defect F10b repaired; a statement with no time predicate anywhere gets the product default 'last hour' and is outside the property's family), (2) the chunk lookup returns exactly the chunks meeting the range (C07 units), (3) statistics pruning never drops a chunk that can contain a matching row (C12 units). That DataFusion evaluates the SQL correctly on the registered files, per-query table registration and adaptive-index independence are assumed, not verified; convert_expr_to_predicate is not under contract yet.",
     "assumptions": [
         "table registration: ListingTable over a path set scans exactly those files; SessionContext::register_table binds the name or fails without effect; a register_table failure directly after deregister_table leaves the bookkeeping stale (not covered: the unit requires a clean state on entry); string normalisation of paths is opaque",
         "DataFusion's Expr / BinaryExpr / Between / Column / Operator have the shapes of the shim (only the variants the extractor matches on, plus Other); extract_timestamp_value is an opaque literal reader (its *1000 / *1e6 / *1e9 scalings are not checked for overflow)",
